@@ -173,7 +173,7 @@ def harness(env, case):
             with env.running():
                 out = dm.response.evaluate_new_data(nd)
             want = t2 if "n)" in a else np.array([9] * rows_new, dtype=object)
-            env.prove(np.asarray(out).shape == (rows_new,), "prop at prediction: one entry per row of the new frame")
+            env.prove(np.asarray(out).ndim >= 1 and np.asarray(out).shape[0] == rows_new, "prop at prediction: one entry per row of the new frame")
             env.prove_equal(np.asarray(out).reshape(-1), want, "prop reports the trials of the new frame at prediction")
         return
     if kind == "prop_validate":
